@@ -18,6 +18,8 @@ def check(tree, rep, tier='quick', seed=0):
                        'NOT decided here: that the dependency trackers never lose a registered waiter (algorithmic; see C06), hence the full "no demanded line left without a value" clause']
     core = get_core(tree)
     R.k0_solve_shape(core, rep)          # every requested form is known before the first line is attempted
+    from ..linerules import l7_signals_are_called
+    l7_signals_are_called(tree, rep)     # a refusal that is named but not called (`self.not_implemented` without parentheses) refuses nothing
     R.k12_schedule_once(core, rep)       # a demanded line is queued and stays queued until it is attempted
     R.k13_add_form(core, rep)            # a form that takes part gets its required lines queued however it was first touched
     from ..linerules import l2c_generators_consumed_once
